@@ -4,7 +4,7 @@ From PV.Base Require Import Prim.
 From PV.Gen Require Import GenConst GenFun.
 From PV.Model Require Import Names Pack Alloc Codec Eltorito Account AccountLinks AccountBoot Hybrid HybridHist
      HybridParse.
-From PV.Proofs Require Import HybridProofs HybridHistProofs.
+From PV.Proofs Require Import CodecProofs HybridProofs HybridHistProofs.
 Import ListNotations.
 Local Open Scope Z_scope.
 
@@ -19,35 +19,86 @@ Proof.
   eexists. reflexivity.
 Qed.
 
-(* open(write(y)) for a hybrid without efi: EVERY field comes back except geometry_sectors, which
-   is re-derived as min(psize // ((ecyle + 1) * heads), 63) = Hybrid.parsed_sectors *)
-Theorem hp_reopen_roundtrip y iso :
+(* BEFORE f7c6de3: open(write(y)) for a hybrid without efi gave every field back except
+   geometry_sectors, re-derived as min(psize // ((ecyle + 1) * heads), 63) = Hybrid.parsed_sectors *)
+Theorem hp_reopen_roundtrip_old y iso :
   ih_wf (hy_ih y) -> ih_efi (hy_ih y) = false ->
   ih_heads (hy_ih y) * ih_sectors (hy_ih y) * 512 <> 0 -> record_ok y iso = true ->
-  hp_reopen y iso =
+  hp_reopen_old y iso =
   OHy (mk_hy (ih_set_sectors (hy_ih y) (parsed_sectors (hy_ih y) iso)) (empty_gpt true) (empty_gpt false)).
 Proof.
-  intros W He Hg Hr. unfold hp_reopen, hp_written.
+  intros W He Hg Hr. unfold hp_reopen_old, hp_reopen_gen, hp_written.
   destruct (ih_heads (hy_ih y) * ih_sectors (hy_ih y) * 512 =? 0) eqn:E0; [apply Z.eqb_eq in E0; contradiction|].
   unfold record_ok in Hr. unfold hy_record in *. destruct (ih_record_mbr (hy_ih y) iso) as [b|] eqn:Eb; [|discriminate].
-  rewrite He in *. unfold hp_open, hp_read. cbn [im_head im_sec_at im_sec im_len].
+  rewrite He in *. unfold hp_open_gen, hp_read. cbn [im_head im_sec_at im_sec im_len].
   change (0 <? 0) with false. change (0 <=? -1) with false. cbn [andb]. change (0 + 32768) with 32768.
   change (32768 <=? 32768) with true. cbv iota.
   pose proof (mbr_length _ _ _ Eb) as Hl.
   destruct (hp_head_slice b (repeat 0 (Z.to_nat (32768 - zlen b))) Hl) as [rest' Hs]. rewrite Hs.
-  unfold hp_parse. rewrite (mbr_roundtrip _ _ _ rest' W Eb).
+  unfold hp_parse_gen, hp_parse_mbr. rewrite (mbr_roundtrip _ _ _ rest' W Eb).
   destruct (hy_ih y); cbn [ih_set_sectors Hybrid.ih_efi] in *. rewrite He. reflexivity.
 Qed.
 
-(* ... and geometry_sectors too exactly when part_offset = 0 and at most 256 cylinders: then the
-   reopened object IS the written one and a second write gives the same bytes *)
-Theorem hp_reopen_roundtrip_exact y iso :
-  ih_wf (hy_ih y) -> ih_efi (hy_ih y) = false -> 1 <= ih_sectors (hy_ih y) <= 63 -> 0 < ih_heads (hy_ih y) ->
-  ih_part_offset (hy_ih y) = 0 -> 1 <= ih_cc (hy_ih y) iso <= 256 -> record_ok y iso = true ->
+(* byte 6 of the active entry is the end sector: sectors + the two high bits of cc - 1 *)
+Lemma hp_esect h iso b rest : ih_wf h -> ih_record_mbr h iso = Some b ->
+  nth 6 (active_entry (b ++ rest) (ih_part_entry h)) 0 = chs_esect (ih_sectors h) (ih_cc h iso).
+Proof.
+  intros (_ & _ & Wpe & We & Wm & _) Eb. pose proof (mbr_length _ _ _ Eb) as Hl.
+  unfold active_entry. rewrite (firstn_app_exact 512 b rest Hl).
+  destruct (mbr_layout _ _ _ Eb) as (_ & _ & Hk). specialize (Hk (ih_part_entry h) Wpe).
+  change (slice (446 + 16 * (ih_part_entry h - 1)) (446 + 16 * ih_part_entry h) b)
+    with (mbr_entry_at b (ih_part_entry h)).
+  unfold ih_entry in Hk. rewrite Z.eqb_refl in Hk.
+  assert (H2 : (ih_part_entry h =? 2) && ih_efi h = false).
+  { destruct (ih_efi h); [|apply andb_false_r]. rewrite andb_true_r. apply Z.eqb_neq. apply We. reflexivity. }
+  assert (H3 : (ih_part_entry h =? 3) && ih_mac h = false).
+  { destruct (ih_mac h); [|apply andb_false_r]. rewrite andb_true_r. apply Z.eqb_neq. apply Wm. reflexivity. }
+  rewrite H2, H3 in Hk. destruct (ih_part_raw h iso) as [raw|] eqn:Ep; [|discriminate].
+  injection Hk as Hk. rewrite <- Hk. unfold ih_part_raw in Ep. destruct (_ && _); [|discriminate].
+  injection Ep as <-. reflexivity.
+Qed.
+
+(* f7c6de3: open(write(y)) gives back EVERY field of a hybrid without efi that add_isohybrid can make
+   (1 <= sectors <= 63, 1 <= heads <= 256), for every part_offset, part_entry and image size -- above
+   256 and above 1024 cylinders too *)
+Theorem hp_reopen_roundtrip y iso :
+  ih_wf (hy_ih y) -> ih_efi (hy_ih y) = false ->
+  1 <= ih_sectors (hy_ih y) <= 63 -> 1 <= ih_heads (hy_ih y) <= 256 -> 0 < iso -> record_ok y iso = true ->
   hp_reopen y iso = OHy (mk_hy (hy_ih y) (empty_gpt true) (empty_gpt false)).
 Proof.
-  intros W He Hs Hh Hpo Hcc Hr. rewrite (hp_reopen_roundtrip y iso W He ltac:(nia) Hr).
-  rewrite (parsed_sectors_exact _ _ W Hs Hh Hpo Hcc). destruct (hy_ih y); reflexivity.
+  intros W He Hs Hh Hiso Hr. unfold hp_reopen, hp_reopen_gen, hp_written.
+  destruct (ih_heads (hy_ih y) * ih_sectors (hy_ih y) * 512 =? 0) eqn:E0; [apply Z.eqb_eq in E0; nia|].
+  unfold record_ok in Hr. unfold hy_record in *. destruct (ih_record_mbr (hy_ih y) iso) as [b|] eqn:Eb; [|discriminate].
+  rewrite He in *. unfold hp_open_gen, hp_read. cbn [im_head im_sec_at im_sec im_len].
+  change (0 <? 0) with false. change (0 <=? -1) with false. cbn [andb]. change (0 + 32768) with 32768.
+  change (32768 <=? 32768) with true. cbv iota.
+  pose proof (mbr_length _ _ _ Eb) as Hl.
+  destruct (hp_head_slice b (repeat 0 (Z.to_nat (32768 - zlen b))) Hl) as [rest' Hsl]. rewrite Hsl.
+  unfold hp_parse_gen, hp_parse_mbr. rewrite (mbr_roundtrip _ _ _ rest' W Eb).
+  replace (ih_part_entry (ih_set_sectors (hy_ih y) (parsed_sectors (hy_ih y) iso))) with (ih_part_entry (hy_ih y))
+    by (destruct (hy_ih y); reflexivity).
+  rewrite (hp_esect _ _ _ rest' W Eb).
+  assert (Hcc : 1 <= ih_cc (hy_ih y) iso <= 1024) by (unfold ih_cc; apply cc_range; lia).
+  destruct (chs_end_decodes (ih_cc (hy_ih y) iso) (ih_heads (hy_ih y)) (ih_sectors (hy_ih y)) Hcc Hh Hs) as [Hd _].
+  unfold chs_decode in Hd. injection Hd as _ Hland. rewrite Hland.
+  destruct (ih_sectors (hy_ih y) =? 0) eqn:Ez; [apply Z.eqb_eq in Ez; lia|].
+  destruct (hy_ih y); cbn [ih_set_sectors Hybrid.ih_efi Hybrid.ih_sectors] in *. rewrite He. reflexivity.
+Qed.
+
+(* hence every such image reopens as a hybrid, and writing the reopened object gives the same bytes *)
+Theorem hp_reopen_always_opens y iso :
+  ih_wf (hy_ih y) -> ih_efi (hy_ih y) = false ->
+  1 <= ih_sectors (hy_ih y) <= 63 -> 1 <= ih_heads (hy_ih y) <= 256 -> 0 < iso -> record_ok y iso = true ->
+  exists y', hp_reopen y iso = OHy y'.
+Proof. intros. eexists. apply hp_reopen_roundtrip; assumption. Qed.
+
+Theorem hp_rewrite_identical y iso :
+  ih_wf (hy_ih y) -> ih_efi (hy_ih y) = false ->
+  1 <= ih_sectors (hy_ih y) <= 63 -> 1 <= ih_heads (hy_ih y) <= 256 -> 0 < iso -> record_ok y iso = true ->
+  forall y', hp_reopen y iso = OHy y' -> hy_record y' iso = hy_record y iso /\ image_len y' iso = image_len y iso.
+Proof.
+  intros W He Hs Hh Hiso Hr y' H. rewrite (hp_reopen_roundtrip y iso W He Hs Hh Hiso Hr) in H.
+  injection H as <-. unfold hy_record, image_len. cbn [hy_ih]. rewrite He. split; reflexivity.
 Qed.
 
 (* ---- concrete objects --------------------------------------------------------------------------- *)
@@ -58,45 +109,46 @@ Definition mk_plain (pe po gs gh : Z) : option hybrid :=
   | None => None
   end.
 
-Definition reopened_geometry (o : option hybrid) (iso : Z) : list Z :=
+Definition reopened_geometry_gen (fs : bool) (o : option hybrid) (iso : Z) : list Z :=
   match o with
-  | Some y => match hp_reopen y iso with
-              | OHy y' => [ih_heads (hy_ih y'); ih_sectors (hy_ih y'); b2z (hp_rewrite_same y iso)]
+  | Some y => match hp_reopen_gen fs y iso with
+              | OHy y' => [ih_heads (hy_ih y'); ih_sectors (hy_ih y'); b2z (hp_rewrite_same_gen fs y iso)]
               | _ => [-1]
               end
   | None => [-2]
   end.
+Definition reopened_geometry := reopened_geometry_gen true.
+Definition reopened_geometry_old := reopened_geometry_gen false.
 
-(* 2. open + write is NOT a fixpoint: REFUTED.  [heads; sectors; rewrite identical] of the reopened object:
+(* BEFORE f7c6de3 open + write was NOT a fixpoint.  [heads; sectors; rewrite identical] of the reopened object:
    (a) 64x32, part_offset 1: sectors 31;  (b) 1x32, 309 cylinders (> 256): sectors 63;
    (c) 1x1, 1280 cylinders (clamped at 1024): sectors 4;  while (d) 64x32, (e) 256x63, (f) 255x63 and
-   (g) part_entry 4 with offset 0 and few cylinders are fixpoints.
-   Reproduction: /var/tmp/hybridhist/repro_reopen.py *)
-Theorem hp_rewrite_identical_refuted :
-  reopened_geometry (mk_plain 1 1 32 64) 110592 = [64; 31; 0] /\
-  reopened_geometry (mk_plain 1 0 32 1) 5062656 = [1; 63; 0] /\
-  reopened_geometry (mk_plain 1 0 1 1) 655360 = [1; 4; 0] /\
-  reopened_geometry (mk_plain 1 0 32 64) 110592 = [64; 32; 1] /\
+   (g) part_entry 4 with offset 0 and few cylinders were fixpoints.
+   Reproduction (on the tree before f7c6de3): /var/tmp/hybridhist/repro_reopen.py *)
+Theorem hp_rewrite_identical_old_refuted :
+  reopened_geometry_old (mk_plain 1 1 32 64) 110592 = [64; 31; 0] /\
+  reopened_geometry_old (mk_plain 1 0 32 1) 5062656 = [1; 63; 0] /\
+  reopened_geometry_old (mk_plain 1 0 1 1) 655360 = [1; 4; 0] /\
+  reopened_geometry_old (mk_plain 1 0 32 64) 110592 = [64; 32; 1] /\
+  reopened_geometry_old (mk_plain 1 0 63 256) 110592 = [256; 63; 1] /\
+  reopened_geometry_old (mk_plain 1 0 63 255) 110592 = [255; 63; 1] /\
+  reopened_geometry_old (mk_plain 4 0 32 64) 110592 = [64; 32; 1].
+Proof. vm_compute. repeat split. Qed.
+(* the same objects (and offsets on tiny geometries) under the current rule: all fixpoints *)
+Theorem hp_rewrite_identical_witnesses :
+  reopened_geometry (mk_plain 1 1 32 64) 110592 = [64; 32; 1] /\
+  reopened_geometry (mk_plain 1 0 32 1) 5062656 = [1; 32; 1] /\
+  reopened_geometry (mk_plain 1 0 1 1) 655360 = [1; 1; 1] /\
+  reopened_geometry (mk_plain 1 16 1 1) 110592 = [1; 1; 1] /\
   reopened_geometry (mk_plain 1 0 63 256) 110592 = [256; 63; 1] /\
-  reopened_geometry (mk_plain 1 0 63 255) 110592 = [255; 63; 1] /\
-  reopened_geometry (mk_plain 4 0 32 64) 110592 = [64; 32; 1].
+  reopened_geometry (mk_plain 4 64 63 255) 110592 = [255; 63; 1].
 Proof. vm_compute. repeat split. Qed.
 
-(* the fixpoint under the exact condition, for a hybrid without efi *)
-Theorem hp_rewrite_identical_partial y iso :
-  ih_wf (hy_ih y) -> ih_efi (hy_ih y) = false -> 1 <= ih_sectors (hy_ih y) <= 63 -> 0 < ih_heads (hy_ih y) ->
-  ih_part_offset (hy_ih y) = 0 -> 1 <= ih_cc (hy_ih y) iso <= 256 -> record_ok y iso = true ->
-  forall y', hp_reopen y iso = OHy y' -> hy_record y' iso = hy_record y iso /\ image_len y' iso = image_len y iso.
-Proof.
-  intros W He Hs Hh Hpo Hcc Hr y' H. rewrite (hp_reopen_roundtrip_exact y iso W He Hs Hh Hpo Hcc Hr) in H.
-  injection H as <-. unfold hy_record, image_len. cbn [hy_ih]. rewrite He. split; reflexivity.
-Qed.
-
-(* a reopened object can have geometry_sectors = 0 (1x1, part_offset 16): write_fp of it raises
-   ZeroDivisionError in _calc_cc ([hp_written] = None) *)
-Theorem hp_reopened_zero_sectors :
+(* BEFORE f7c6de3 a reopened object could have geometry_sectors = 0 (1x1, part_offset 16): write_fp of it
+   raised ZeroDivisionError in _calc_cc ([hp_written] = None) *)
+Theorem hp_reopened_zero_sectors_old :
   match mk_plain 1 16 1 1 with
-  | Some y => match hp_reopen y 110592 with
+  | Some y => match hp_reopen_old y 110592 with
               | OHy y' => ih_sectors (hy_ih y') = 0 /\ hp_written y' 110592 = None
               | _ => False
               end
@@ -122,13 +174,26 @@ Theorem hp_reopen_roundtrip_efi_mac :
   length (written_fields w_two_names) = 7%nat /\ rewrite_same_of w_two_names = true.
 Proof. vm_compute. repeat split. Qed.
 
-(* part_entry = 2 with efi: the written table has no 0x80 entry; open_fp raises
-   'No valid partition found in IsoHybrid!' -- an image pycdlib wrote and cannot open *)
+(* BEFORE d0ed30b (HybridHist rule [true false]) part_entry = 2 with efi was accepted: the written table
+   had no 0x80 entry and open_fp raised 'No valid partition found in IsoHybrid!'.  Now add_isohybrid
+   refuses it (and part_entry 0 / 5, and 3 with mac), nothing changed. *)
 Definition w_pe2_efi :=
   h_boot ++ h_efi n_efi ++ [HAddHybrid 2 7 0 32 64 None false (Some true) hh_noguid; HWrite].
-Theorem hp_reopen_no_active_entry :
-  all_acc w_pe2_efi = true /\ reopen_of w_pe2_efi = ORaise.
-Proof. vm_compute. split; reflexivity. Qed.
+Theorem hp_reopen_no_active_entry_old :
+  let s := hrun_old2 hinit w_pe2_efi in
+  match hhyb s with Some y => hp_reopen y (iso_size_of s) = ORaise | None => False end.
+Proof. vm_compute. reflexivity. Qed.
+Theorem hp_part_entry_refused :
+  let pre := h_boot ++ h_efi n_efi ++ h_efi n_efi2 in
+  let s := hrun hinit pre in
+  map (fun o => out_code (snd (hstep s o)))
+      [HAddHybrid 2 7 0 32 64 None false (Some true) hh_noguid;
+       HAddHybrid 3 7 0 32 64 None true (Some true) hh_noguid;
+       HAddHybrid 0 7 0 32 64 None false None hh_noguid;
+       HAddHybrid 5 7 0 32 64 None false None hh_noguid;
+       HAddHybrid 3 7 0 32 64 None false (Some true) hh_noguid;
+       HAddHybrid 2 7 0 32 64 None false None hh_noguid] = [0; 0; 0; 0; 1; 1].
+Proof. vm_compute. reflexivity. Qed.
 
 (* ---- 3. what parse refuses ------------------------------------------------------------------------ *)
 
@@ -175,13 +240,16 @@ Theorem hp_rm_add_after_reopen :
   option_map v_len (hybrid_view s2) = Some 8225280.
 Proof. vm_compute. repeat split. Qed.
 
+Print Assumptions hp_reopen_roundtrip_old.
 Print Assumptions hp_reopen_roundtrip.
-Print Assumptions hp_reopen_roundtrip_exact.
-Print Assumptions hp_rewrite_identical_refuted.
-Print Assumptions hp_rewrite_identical_partial.
-Print Assumptions hp_reopened_zero_sectors.
+Print Assumptions hp_reopen_always_opens.
+Print Assumptions hp_rewrite_identical.
+Print Assumptions hp_rewrite_identical_old_refuted.
+Print Assumptions hp_rewrite_identical_witnesses.
+Print Assumptions hp_reopened_zero_sectors_old.
 Print Assumptions hp_reopen_roundtrip_efi_mac.
-Print Assumptions hp_reopen_no_active_entry.
+Print Assumptions hp_reopen_no_active_entry_old.
+Print Assumptions hp_part_entry_refused.
 Print Assumptions hp_parse_rejects.
 Print Assumptions hp_open_plain_image.
 Print Assumptions hp_edit_after_reopen.
